@@ -608,6 +608,11 @@ const (
 )
 
 func headerDecodeChecks(c *Ctx, rule string, onlyC01 bool) {
+	headerDecodeChecksFiltered(c, rule, onlyC01, nil)
+}
+
+// headerDecodeChecksFiltered runs the header cases accepted by filter (all when nil).
+func headerDecodeChecksFiltered(c *Ctx, rule string, onlyC01 bool, filter func(name string) bool) {
 	P, R := c.P, c.R
 	fn := P.Func("rtmp", "(*Protocol).readMessageHeader")
 	if !R.Anchor(fn != nil, rule, "rtmp.(*Protocol).readMessageHeader") {
@@ -689,6 +694,9 @@ func headerDecodeChecks(c *Ctx, rule string, onlyC01 bool) {
 	}
 	for _, cs := range cases {
 		cs := cs
+		if filter != nil && !filter(cs.name) {
+			continue
+		}
 		key := "rtmp|(*Protocol).readMessageHeader|" + cs.name
 		v := Variant{Dom: cs.dom, Bind: cs.bind, Assume: cs.assume}
 		if v.Bind == nil {
